@@ -997,6 +997,12 @@ func (fr *frame) execNext(x *ssa.Next, st *State) {
 		c.assumeJSON(st, val, mt.Elem())
 	}
 	c.assumeValid(st, k, mt.Key())
+	if k.Sort == "Iface" && c.Opt.Safety {
+		// a key that is in a Go map is hashable: inserting it would have panicked otherwise
+		c.R.UFun("hashableT", "(declare-fun hashableT (Int) Bool)")
+		c.useHashable = true
+		c.assume(st, Implies(ok, Or(IsNilIface(k), app("Bool", "hashableT", ITyp(k)))))
+	}
 	// visited' = visited + {k} (only matters when ok)
 	h := c.getHeap(st, vh)
 	c.setHeap(st, vh, Ite(ok, Store(h, rec.it, Store(vis, k, True)), h))
